@@ -2,6 +2,9 @@
    (journal ID ITEM ...)
      ITEM = (rule PRED (line ACCTHEX KIND AMT STATE) ...)
           | (xact PAYEEHEX STATE (post ACCTHEX KIND AMT COST LOT) ...)
+          | (alias NAMEHEX TARGETHEX)
+     every ACCTHEX / TARGETHEX is the FULL account name the written name resolves to at its place in the file
+     (master account, apply account, one round of aliases) - computed by the harness
      PRED = (acct HEX) | (payee HEX) | (lt AMT) | (gt AMT) | (not P) | (and P Q) | (or P Q)
      AMT  = - | (NUM DEN PREC KEYHEX)          KEYHEX = commodity symbol or - (none)
      COST = - | (u NUM DEN PREC SYMHEX) | (t NUM DEN PREC SYMHEX)
@@ -84,6 +87,7 @@ let handle line =
         | L (A "rule" :: p :: ls) -> DRule { r_pred = pred_of p; r_lines = List.map line_of ls }
         | L (A "xact" :: payee :: st :: ps) ->
           DTxn { t_payee = str_of_hex (atom payee); t_state = state_of st; t_posts = List.map (post_of cp0) ps }
+        | L [A "alias"; n; t] -> DAlias (str_of_hex (atom n), str_of_hex (atom t))
         | _ -> failwith "item") its in
     let run ord =
       List.mapi (fun i r ->
@@ -91,7 +95,7 @@ let handle line =
           | Ok (XAccepted ps) -> Printf.sprintf "%s %d OK %s" id i (String.concat ";" (List.map show_xpost ps))
           | Ok XIgnored -> Printf.sprintf "%s %d IGNORED" id i
           | Err e -> Printf.sprintf "%s %d ERR %s" id i (err_name e))
-        (process ord [] [] ds) in
+        (process ord [] [] [] ds) in
     let r1 = run false and r2 = run true in
     List.map2 (fun a b -> if a = b then a else
                   (let i = String.index_from a (String.index a ' ' + 1) ' ' in
